@@ -6,6 +6,7 @@ import CorgiSpec.Ops
 import CorgiProofs.SumSpec
 import CorgiProofs.Pointwise
 import CorgiSpec.Oracle
+import CorgiProofs.Composite
 
 namespace Corgi
 variable {S : Type} [Add S] [Mul S] [Neg S] [Sub S] [ScalarOps S]
@@ -66,6 +67,17 @@ theorem C07_softmax [BEq S] (a : Tensor S) (L : List Nat) (n : Nat) (hd : a.dims
   congr 1
   simp [specSoftmax, softmaxFlat, hd]
 
+
+/-- **The executed path**: the `softmax` command records three nodes (exp, sum(1), division); whenever
+    it returns a handle, the array it denotes is the row-normalised exponentials. -/
+theorem C07_softmax_executed [BEq S] (σ σ' : State S) (a r : Handle) (L : List Nat) (n : Nat) (hd : a.dims = L ++ [n])
+    (hwf : (σ.tensorOf a).WF) (hok : hSoftmax σ a = .ok (σ', r)) :
+    σ'.tensorOf r = specSoftmax (σ.tensorOf a) := by
+  have h1 := (sound_hSoftmax σ a σ' r hok).1
+  rw [C07_softmax (σ.tensorOf a) L n (by simpa [State.tensorOf] using hd) hwf] at h1
+  simp only [Except.ok.injEq] at h1
+  exact h1.symm
+
 end Corgi
 
 #print axioms Corgi.C07_reshape
@@ -77,3 +89,4 @@ end Corgi
 #print axioms Corgi.C07_sum_zero
 #print axioms Corgi.C07_sumAll
 #print axioms Corgi.C07_softmax
+#print axioms Corgi.C07_softmax_executed
